@@ -76,6 +76,13 @@ class Report:
             else:
                 new.append(v)
         rc = 0
+        # stale replay files of earlier runs of this property would mislead: drop them
+        import glob
+        for old in glob.glob(os.path.join(OUTDIR, 'replay', '%s-*.json' % self.pid)):
+            try:
+                os.remove(old)
+            except OSError:
+                pass
         if new:
             rc = 1
             os.makedirs(os.path.join(OUTDIR, 'replay'), exist_ok=True)
